@@ -23,6 +23,8 @@ import (
 	"golang.org/x/tools/go/ssa"
 )
 
+var profileSites = os.Getenv("VERIF_PROFILE") != ""
+
 type dec struct {
 	pick bool    // false: two-way branch, true: concretisation of a term
 	b    bool    // branch outcome
@@ -94,6 +96,7 @@ type Result struct {
 	MergedCalls  int
 	Wall         time.Duration
 	MaxDepth     int
+	Sites        map[string]int // solver queries per code site (profiling)
 }
 
 type Config struct {
@@ -174,6 +177,7 @@ type worker struct {
 	auxBV      []*Term
 	auxStr     []*Term
 	nstr       int
+	sites      map[string]int
 	fieldsMemo map[*Term][]value
 	splitMemo  map[splitKey][]value
 	noMerge    bool
@@ -200,7 +204,7 @@ func Explore(cfg Config) *Result {
 	}
 	ex := &explorer{cfg: cfg, vioSeen: map[string]bool{}, incSeen: map[string]bool{}}
 	ex.cond = sync.NewCond(&ex.mu)
-	ex.res = &Result{Harness: cfg.Harness, Covers: map[string]int{}, Asserts: map[string]int{}, Funcs: map[string]int{}, Stubs: map[string]int{}}
+	ex.res = &Result{Sites: map[string]int{}, Harness: cfg.Harness, Covers: map[string]int{}, Asserts: map[string]int{}, Funcs: map[string]int{}, Stubs: map[string]int{}}
 	ex.funcs = map[*ssa.Function]map[ssa.Instruction]bool{}
 	ex.queue = []*workItem{{prefix: nil, m: newModel()}}
 	start := time.Now()
@@ -296,7 +300,7 @@ func (ex *explorer) runWorker(id int, fn *ssa.Function) {
 				ex.cond.Broadcast()
 				return
 			}
-			w = &worker{ex: ex, s: s, fcov: map[*ssa.Function]map[ssa.Instruction]bool{}, stubs: map[string]int{}, sideInit: map[*value]*omap{}, side: map[*value]*omap{}, held: map[*value]bool{}}
+			w = &worker{ex: ex, s: s, fcov: map[*ssa.Function]map[ssa.Instruction]bool{}, stubs: map[string]int{}, sites: map[string]int{}, sideInit: map[*value]*omap{}, side: map[*value]*omap{}, held: map[*value]bool{}}
 			s.aux = func() ([]*Term, []*Term) { return w.auxBV, w.auxStr }
 			w.i = newInterpreter(ex.cfg.Prog, w)
 			if msg := w.i.runInits(ex.cfg); msg != "" {
@@ -357,6 +361,9 @@ func (ex *explorer) runWorker(id int, fn *ssa.Function) {
 		}
 		for k, v := range w.stubs {
 			ex.res.Stubs[k] += v
+		}
+		for k, v := range w.sites {
+			ex.res.Sites[k] += v
 		}
 		ex.mu.Unlock()
 		w.s.close()
@@ -445,7 +452,7 @@ func (w *worker) runPath(fn *ssa.Function, it *workItem) {
 				if os.Getenv("VERIF_DEBUG") != "" {
 					fmt.Fprintf(os.Stderr, "engine crash: %v\n%s\n", r, st)
 				}
-				w.ex.inconclusive("engine error: " + firstLine(msg) + " @ " + w.where() + " :: " + crashSite(st))
+				w.ex.inconclusive("engine error: " + firstLine(msg) + " @ " + w.where() + " :: " + crashSite(st) + " <- " + strings.Join(w.i.stackTrace(), " < "))
 			}
 		}()
 		call(w.i, nil, token.NoPos, fn, nil)
@@ -573,6 +580,9 @@ func (w *worker) unknown(what string) {
 func (w *worker) decide(c *Term) bool {
 	if c.isConst() {
 		return c.k != 0
+	}
+	if profileSites {
+		w.sites[w.where()]++
 	}
 	if c.w != 0 {
 		panic("decide: not Bool")
